@@ -97,6 +97,7 @@ def execute(plan):
                 SIM.read_fault = None
         trees = []
         cached = plan["cached"]
+        last_opts = None
         for k, r in enumerate(plan["rpcs"]):
             opts = {"records_per_chunk": r}
             if cached and k == 0:
@@ -141,6 +142,17 @@ def execute(plan):
                         "rpc": r, "error": exc_text(e), "options": opts}))
                     continue
             trees.append((r, t))
+            last_opts = (r, dict(opts))
+        if w.plan.get("share_option_dicts") and trees and last_opts is not None:
+            # the caller opens once more with the options it used last (the very same dict object,
+            # see World.open): the request size it names still is the request size
+            try:
+                trees.append((last_opts[0], w.open(**last_opts[1])))
+                stats["second-use-of-an-options-dict"] = 1
+            except Exception as e:  # noqa: BLE001
+                violations.append(Violation(ID, "open-raised", "second-use-of-options:"
+                                            + type(e).__name__, {
+                    "rpc": last_opts[0], "error": exc_text(e), "options": last_opts[1]}))
         # partial reads, identical on every tree
         import numpy as np
 
